@@ -1,7 +1,592 @@
-"""rules over the multipart preparation function and MultipartStream -- filled in below"""
+"""Rules over the multipart preparation function and the multipart stream.
+
+prepare (role: the crate-local function that takes the response Builder and a
+slice of Range<u64>): per loop iteration the accumulator grows by exactly
+len(buf) + (r.end - r.start) where `buf` is the very Vec pushed to the part-header
+list; every addition is overflow-checked; the result is acc + len(trailer) and is
+the term formatted into Content-Length.
+
+stream (role: the struct holding Vec<Range<u64>> and a boxed dyn Entity): object
+invariant Inv = `h <= n  and  (cur is Some => p = 1 and h < n)` with the position
+field read as 2h+p.  PX assumes Inv at the loop head of poll_next (three cases),
+checks it at every back edge and return, discharges the index sites under it,
+checks the byte accounting of every emitted piece and that terminal post-states
+are absorbing (a second analysis started from each terminal post-state)."""
+import re
+from ..px import const, is_const, is_agg, agg, agg_get, mk_binop, TY, fmt_term, pack
+from .. import px as P
+from .. import facts as F
+from .. import census as CEN
+from ..models import decode_template, some, NONE, len_term
+from ..zone import Zone
+from .common import (where, short, final_read, self_field, impl_fn, inherent_fn, poll_shape, cons_zone, method_name)
+from . import serve_model as SM
+
+
+# ------------------------------------------------------------------ prepare function
+
+def find_prepare(ctx):
+    from ..check import FailClosed
+    out = []
+    for n, b in ctx.facts.bodies.items():
+        if b["kind"] != "fn":
+            continue
+        tys = [b["locals"][i]["s"] for i in range(1, b["arg_count"] + 1)]
+        if any("http::response::Builder" in t for t in tys) and any("[std::ops::Range<u64>]" in t or "Vec<std::ops::Range<u64>>" in t for t in tys):
+            out.append(n)
+    if len(out) != 1:
+        raise FailClosed("multipart preparation function (Builder + ranges) not found uniquely: %r" % out)
+    return out[0]
+
+
+def prepare_rows(ctx):
+    if hasattr(ctx, "_prep"):
+        return ctx._prep
+    name = find_prepare(ctx)
+    outs = ctx.px(name, inline=lambda c, d: SM.is_cast_helper(ctx, c.get("res_path")), key="casts")
+    b = ctx.facts.bodies[name]
+    params = {}
+    for i in range(1, b["arg_count"] + 1):
+        s = b["locals"][i]["s"]
+        if "Builder" in s:
+            params["builder"] = ("param", i)
+        elif "Range<u64>" in s:
+            params["ranges"] = ("param", i)
+        elif s == "u64":
+            params["len"] = ("param", i)
+        elif "HeaderMap" in s:
+            params["hdrs"] = ("param", i)
+    ctx._prep = {"fn": name, "outs": outs, "params": params}
+    return ctx._prep
+
+
+def buf_pieces(v):
+    pieces = []
+    while isinstance(v, tuple) and v[0] == "appended":
+        pieces.append(v[2])
+        v = v[1]
+    pieces.reverse()
+    return v, pieces
+
+
 def length_sum(ctx, rule):
-    pass
+    R = prepare_rows(ctx)
+    fn, outs = R["fn"], R["outs"]
+    # exit rows: Ok((builder, part_headers, total))
+    exits = [o for o in outs if o.kind == "return" and is_agg(o.value) and o.value[3] == "Ok"]
+    if not exits:
+        ctx.violation(rule, rule + "|no-ok-exit", "the multipart preparation function has no Ok exit")
+        return
+    acc_lv = None
+    trailer_len = None
+    for o in exits:
+        tup = agg_get(o.value, "0")
+        total = agg_get(tup, "2") if is_agg(tup) else None
+        bld = agg_get(tup, "0") if is_agg(tup) else None
+        ok = False
+        if isinstance(total, tuple) and total[0] == "binop" and total[1] == "Add":
+            a, b = total[2], total[3]
+            if isinstance(a, tuple) and a[0] == "loopvar" and is_const(b):
+                acc_lv, trailer_len, ok = a, b[1], True
+        if not ok:
+            ctx.violation(rule, rule + "|total-shape", "UNRECOGNISED: returned multipart length %s is not <accumulator> + len(<trailer literal>)" % short(total, 100))
+            return
+        # the no-overflow edge was taken for this addition
+        ovf = ("ovf", "Add", acc_lv, const(trailer_len))
+        if o.cons.known.get(ovf) != 0:
+            ctx.violation(rule, rule + "|trailer-add-unchecked", "the trailer length is added to the multipart length without an overflow check")
+        # Content-Length value == total
+        cl = None
+        if isinstance(bld, tuple) and bld[0] == "builder":
+            for h in bld[2]:
+                if SM.hdr_name(h[0]) == "CONTENT_LENGTH":
+                    cl = h[1]
+        elif isinstance(bld, tuple):
+            # builder passed as an opaque parameter: headers are nested opaque calls
+            t = bld
+            while isinstance(t, tuple) and t[0] == "call" and t[1].startswith("http::response::Builder::"):
+                if t[1].endswith("::header") and SM.hdr_name(t[2][1]) == "CONTENT_LENGTH":
+                    cl = t[2][2]
+                t = t[2][0]
+        if cl is None:
+            ctx.violation(rule, rule + "|no-cl", "the multipart builder gets no Content-Length")
+        else:
+            fv = SM.fmt_value(cl)
+            args = SM.fmt_arg_values(fv) if fv["kind"] == "fmt" else []
+            if SM.template_text(fv.get("template")) != "{}" or len(args) != 1 or args[0][2] != total:
+                ctx.violation(rule, rule + "|cl-not-total", "multipart Content-Length is formatted from %s, not from the computed body length %s" %
+                              (short(args[0][2], 60) if args else fv["kind"], short(total, 60)))
+            else:
+                ctx.ok(rule, "Content-Length == returned total == acc + len(trailer)", detail={"trailer_len": trailer_len})
+    # loop rows of the ranges loop
+    key = acc_lv[3]
+    header = acc_lv[2]
+    entry = None
+    nloop = 0
+    for o in outs:
+        lev = o.state.extra.get("loop_entry_values", {})
+        ev0 = lev.get((fn, header, key))
+        if ev0 is not None:
+            entry = ev0
+        if o.kind == "backedge" and o.where == (fn, header):
+            nloop += 1
+            root = ("L", 0, key[1])
+            newacc = final_read(ctx, o, root, key[2])
+            pushes = [e for e in o.events if e["k"] == "call" and method_name(e["callee"]) == "push" and "Vec<u8>" in (e["callee"].get("res_full") or e["callee"].get("full") or "")]
+            if len(pushes) != 1:
+                ctx.violation(rule, rule + "|push-count", "a loop iteration pushes %d part headers (expected exactly one)" % len(pushes))
+                continue
+            buf = pushes[0]["args"][1]
+            r = None
+            for e in o.events:
+                if e["k"] == "call" and e["callee"].get("path") == "std::iter::Iterator::next" and "slice::Iter" in (e["callee"].get("res_full") or ""):
+                    r = ("deref", ("payload", e["result"], "Some", "0"))
+            if r is None:
+                ctx.violation(rule, rule + "|no-range-iter", "UNRECOGNISED: the loop does not iterate a slice of ranges")
+                continue
+            want = mk_binop("Add", mk_binop("Add", acc_lv, len_term(buf)), mk_binop("Sub", ("field", r, "end"), ("field", r, "start")))
+            alt = mk_binop("Add", mk_binop("Add", acc_lv, mk_binop("Sub", ("field", r, "end"), ("field", r, "start"))), len_term(buf))
+            if newacc not in (want, alt):
+                ctx.violation(rule, rule + "|summand", "per-part length update is %s; expected acc + len(pushed part header) + (r.end - r.start)" % short(newacc, 160),
+                              where=where(pushes[0]))
+                continue
+            # both additions overflow-checked on this (continuing) path
+            checked = [t for t, v in o.cons.known.items() if isinstance(t, tuple) and t[0] == "ovf" and t[1] == "Add" and v == 0]
+            if len(checked) < 2:
+                ctx.violation(rule, rule + "|unchecked-add", "a summand of the multipart length is added without an overflow check (%d checked additions on the path)" % len(checked),
+                              where=where(pushes[0]))
+                continue
+            ctx.ok(rule, "iteration: acc' = acc + len(buf) + |r|, buf is the pushed part header, adds checked", where=where(pushes[0]))
+            ctx.sample({"rule": rule, "acc_update": short(newacc, 200)})
+    if entry != const(0):
+        ctx.violation(rule, rule + "|acc-init", "the multipart length accumulator starts at %s, not 0" % short(entry, 40))
+    else:
+        ctx.ok(rule, "accumulator starts at 0")
+    ctx.floor(rule, nloop, 1, what="loop-iteration rows of the multipart length sum")
+    # overflow edges lead to Err
+    for o in outs:
+        if o.kind == "return" and any(isinstance(t, tuple) and t[0] == "ovf" and v == 1 for t, v in o.cons.known.items()):
+            if not (is_agg(o.value) and o.value[3] == "Err"):
+                ctx.violation(rule, rule + "|overflow-not-err", "an overflowing multipart length does not return an error")
+    return {"trailer_len": trailer_len}
+
+
+def part_template(ctx, rule, boundary_tokens):
+    """C06.R2/R3: delimiter literal agreement, template arguments, blank line, entity header rendering"""
+    R = prepare_rows(ctx)
+    fn, outs, params = R["fn"], R["outs"], R["params"]
+    n = 0
+    toks = set(boundary_tokens)
+    for o in outs:
+        if o.kind != "backedge":
+            continue
+        pushes = [e for e in o.events if e["k"] == "call" and method_name(e["callee"]) == "push" and "Vec<u8>" in (e["callee"].get("res_full") or e["callee"].get("full") or "")]
+        if not pushes:
+            continue
+        n += 1
+        buf = pushes[0]["args"][1]
+        base, pieces = buf_pieces(buf)
+        bad = []
+        if not pieces or pieces[0][0] != "fmt":
+            bad.append("part header does not start with the formatted delimiter line")
+        else:
+            fa = pieces[0][1]
+            tt = SM.template_text(decode_template(fa[1])) if isinstance(fa[1], str) else None
+            m = re.fullmatch(r"\r\n--([^\r\n]+)\r\nContent-Range: bytes \{\}-\{\}/\{\}\r\n", tt or "")
+            if not m:
+                bad.append("part template %r is not `CRLF--<boundary>CRLF Content-Range: bytes {}-{}/{} CRLF`" % tt)
+            else:
+                toks.add(m.group(1))
+                r = None
+                for e in o.events:
+                    if e["k"] == "call" and e["callee"].get("path") == "std::iter::Iterator::next" and "slice::Iter" in (e["callee"].get("res_full") or ""):
+                        r = ("deref", ("payload", e["result"], "Some", "0"))
+                args = [a[3] if isinstance(a, tuple) and a[0] == "fmtarg" else a for a in fa[2]]
+                want = [("field", r, "start"), mk_binop("Sub", ("field", r, "end"), const(1)), params.get("len")]
+                if args != want:
+                    bad.append("part Content-Range arguments are (%s), expected (r.start, r.end - 1, entity length)" % ", ".join(short(a, 40) for a in args))
+                if any(not (isinstance(a, tuple) and a[0] == "fmtarg" and a[1] == "display" and a[2] == "u64") for a in fa[2]):
+                    bad.append("part Content-Range arguments are not Display of u64")
+        if len(pieces) < 2 or pieces[-1] != ("slice", ("bytes", "\r\n")):
+            bad.append("the part header does not end with the blank line CRLF (last append: %s)" % short(pieces[-1] if pieces else None, 60))
+        if len(pieces) != 3 or pieces[1][0] != "slice":
+            bad.append("part header is not delimiter + entity headers + blank line (%d pieces)" % len(pieces))
+        if bad:
+            ctx.violation(rule, rule + "|" + bad[0][:40], "; ".join(bad), where=where(pushes[0]))
+        else:
+            ctx.ok(rule, "part header = delimiter/Content-Range(r.start, r.end-1, len) + entity headers + CRLF", where=where(pushes[0]))
+    ctx.floor(rule, n, 1, what="part-header rendering rows")
+    # entity header rendering loop: name ": " value CRLF
+    nh = 0
+    for o in outs:
+        if o.kind != "backedge":
+            continue
+        wr = [e for e in o.events if e["k"] == "call" and method_name(e["callee"]) == "extend_from_slice"]
+        pushes = [e for e in o.events if e["k"] == "call" and method_name(e["callee"]) == "push"]
+        if pushes or len(wr) == 0:
+            continue
+        nh += 1
+        vals = [e["args"][1] for e in wr]
+        lits = [P.fmt_term(v) for v in vals]
+        shape_ok = len(wr) == 4 and _is_lit(wr[1], ": ") and _is_lit(wr[3], "\r\n")
+        if not shape_ok:
+            ctx.violation(rule, rule + "|entity-header-rendering", "entity headers are not rendered as name ': ' value CRLF (appends: %s)" % [l[:30] for l in lits], where=where(wr[0]))
+        else:
+            ctx.ok(rule, "entity header rendered as name ': ' value CRLF", where=where(wr[0]))
+    ctx.floor(rule + ".hdr", nh, 1, what="entity-header rendering rows")
+    return toks
+
+
+def _is_lit(ev, text):
+    from ..models import seq_of
+    a = ev["args"][1]
+    v = ev["snap"][1] if a[0] == "ref" else a
+    if isinstance(v, tuple) and v[0] == "slice_of":
+        v = v[1]
+    if isinstance(v, tuple) and v[0] == "refconst":
+        v = v[1]
+    return v == ("bytes", text)
+
+
+# ------------------------------------------------------------------ stream
+
+def find_stream(ctx):
+    from ..check import FailClosed
+    cands = []
+    for a in ctx.facts.adts.values():
+        if not a["local"] or a["kind"] != "struct":
+            continue
+        fs = a["variants"][0]["fields"]
+        if any("Vec<std::ops::Range<u64>>" in f["ty"] for f in fs) and any("dyn Entity" in f["ty"] for f in fs):
+            cands.append(a)
+    if len(cands) != 1:
+        raise FailClosed("multipart stream struct not found uniquely")
+    a = cands[0]
+    roles = {}
+    for f in a["variants"][0]["fields"]:
+        t = f["ty"]
+        if t.startswith("std::option::Option<") and "Stream" in t:
+            roles["cur"] = f["name"]
+        elif t == "usize":
+            roles["state"] = f["name"]
+        elif "Vec<std::vec::Vec<u8>>" in t:
+            roles["part_headers"] = f["name"]
+        elif "Vec<std::ops::Range<u64>>" in t:
+            roles["ranges"] = f["name"]
+        elif t == "u64":
+            roles["remaining"] = f["name"]
+        elif "dyn Entity" in t:
+            roles["entity"] = f["name"]
+    if set(roles) != {"cur", "state", "part_headers", "ranges", "remaining", "entity"}:
+        raise FailClosed("multipart stream fields not recognised by type: %r" % roles)
+    pn = impl_fn(ctx, "futures_core::Stream", a["path"], "poll_next")
+    if len(pn) != 1:
+        raise FailClosed("no unique poll_next for %s" % a["path"])
+    return a["path"], roles, pn[0]
+
+
+SELF = ("H", ("param", 1))
+H = ("sym", "h")
+RG = ("sym", "ranges")
+PH = ("sym", "part_headers")
+REM = ("sym", "remaining")
+CURS = ("sym", "cur_stream")
+N = ("len", RG)
+
+
+def stream_cases():
+    return [("p=0,cur=None", 0, False), ("p=1,cur=None", 1, False), ("p=1,cur=Some", 1, True)]
+
+
+def mk_self(adt, roles, h, p, cur_some, rem=REM, ph=PH):
+    return agg("adt", adt, None, (
+        (roles["cur"], some(CURS) if cur_some else NONE),
+        (roles["state"], pack(h, const(p))),
+        (roles["part_headers"], ph),
+        (roles["ranges"], RG),
+        (roles["entity"], ("sym", "entity")),
+        (roles["remaining"], rem),
+    ))
+
+
+def base_rels(cur_some, h=H):
+    # a Vec<Range<u64>> has 16-byte elements, so its length is at most isize::MAX / 16
+    rels = [("Le", h, N), ("Eq", ("len", PH), N), ("Le", N, const(((1 << 63) - 1) // 16))]
+    if cur_some:
+        rels.append(("Lt", h, N))
+    return rels
+
+
+def run_case(ctx, adt, roles, pn, p, cur_some, selfval=None, rels=None, cons0=None):
+    TY.setdefault(H, (64, False))
+    TY.setdefault(REM, (64, False))
+    TY.setdefault(N, (64, False))
+    sv = selfval if selfval is not None else mk_self(adt, roles, H, p, cur_some)
+    rl = rels if rels is not None else base_rels(cur_some)
+
+    def setup(st, px):
+        st.env[SELF] = sv
+        if cons0 is not None:
+            st.cons = cons0.copy()
+        for r in rl:
+            st.cons.rel.append(r)
+
+    def loop_assume(px, st, fr, header):
+        # the loop head is reached from the entry with the same object state: re-impose it on the havocked fields
+        if fr.fid == 0:
+            st.env[SELF] = sv
+    return ctx.px(pn, inline=lambda c, d: SM.is_cast_helper(ctx, c.get("res_path")), setup=setup, loop_assume=loop_assume, key="mp")
+
+
+def inv_holds(ctx, o, roles):
+    """-> (ok, why, (h', p', cur'))"""
+    sv = final_read(ctx, o, SELF, ())
+    stt = final_read(ctx, o, SELF, (("f", roles["state"]),))
+    cur = final_read(ctx, o, SELF, (("f", roles["cur"]),))
+    if not (isinstance(stt, tuple) and stt[0] == "pack" and is_const(stt[2])):
+        return False, "position field %s is not of the form 2h+p with a known parity" % short(stt, 60), (None, None, None)
+    h2, p2 = stt[1], stt[2][1]
+    cv = o.cons.variant_of(cur)
+    if cv is None:
+        return False, "current-part field has no definite variant", (h2, p2, None)
+    z = cons_zone(o, terms=(h2, N))
+    if not z.entails("Le", h2, N):
+        return False, "h' = %s <= n not implied" % short(h2, 40), (h2, p2, cv)
+    if cv == "Some":
+        if p2 != 1:
+            return False, "a part stream is installed while the position says 'header/trailer next' (p=0)", (h2, p2, cv)
+        if not z.entails("Lt", h2, N):
+            return False, "a part stream is installed while h' = %s may equal n (no part left): the next poll indexes out of bounds" % short(h2, 40), (h2, p2, cv)
+    return True, "", (h2, p2, cv)
+
+
+def stream_invariant(ctx, rule):
+    """C20.R4 / R5: Inv inductive, index sites discharged, terminal post-states absorbing"""
+    adt, roles, pn = find_stream(ctx)
+    nrows = 0
+    terminal = []
+    for label, p, cs in stream_cases():
+        outs = run_case(ctx, adt, roles, pn, p, cs)
+        # census under Inv
+        sites = CEN.census(ctx, outs)
+        for key, s in sorted(sites.items()):
+            acct = s.kind == "assert" and s.op.startswith("Overflow(Sub)")
+            dbg = s.kind == "panic-call" and "assert_failed" in s.op
+            if s.failed and not (acct or dbg):
+                ctx.violation(rule, "%s|%s|%s" % (rule, label, key), "case %s: %s (%s)" % (label, s.failed[0][0], s.failed[0][1][:120]), where=F.loc(s.span))
+            elif s.failed:
+                ctx.ok(rule, "%s %s: byte-accounting site (discharged by the accounting rules C01.R4-R6)" % (label, key), nontrivial=False)
+            else:
+                ctx.ok(rule, "%s %s" % (label, key), detail=sorted(s.how), where=F.loc(s.span))
+        for o in outs:
+            if o.kind in ("unreachable", "infeasible", "diverge"):
+                continue
+            if not cons_zone(o).feasible():
+                continue
+            nrows += 1
+            okk, why, (h2, p2, cv) = inv_holds(ctx, o, roles)
+            kind, payload = poll_shape(o.value) if o.kind == "return" else ("loop", None)
+            inst = "%s -> %s" % (label, kind)
+            if not okk:
+                ctx.violation(rule, "%s|inv|%s" % (rule, inst), "object invariant not preserved on %s: %s" % (inst, why),
+                              where=_last_where(o))
+            else:
+                ctx.ok(rule, "Inv preserved: %s (h'=%s, p'=%s, cur'=%s)" % (inst, short(h2, 30), p2, cv))
+            if o.kind == "return" and kind in ("Err", "None"):
+                terminal.append((label, kind, o))
+    ctx.floor(rule, nrows, 8, what="rows of the multipart stream step")
+    # absorption: analyse again from each terminal post-state
+    nt = 0
+    for label, kind, o in terminal:
+        nt += 1
+        sv = final_read(ctx, o, SELF, ())
+        outs2 = run_case(ctx, adt, roles, pn, None, None, selfval=sv, rels=[], cons0=o.cons)
+        bad = None
+        for o2 in outs2:
+            if not cons_zone(o2).feasible():
+                continue
+            if o2.kind == "return":
+                k2, pl = poll_shape(o2.value)
+                # premise: a part stream that already failed/finished yields no further data (C20.R3)
+                if k2 == "Ok":
+                    src = fmt_term(pl)
+                    if "poll_next" in src:
+                        continue
+                    bad = "after %s the next poll yields data (%s)" % (kind, short(pl, 60))
+            elif o2.kind == "backedge":
+                # one more loop turn from the terminal state: its index sites decide (census below)
+                pass
+        sites = CEN.census(ctx, outs2)
+        for key, s in sites.items():
+            if s.failed and s.kind in ("index", "slice") and bad is None:
+                bad = "after %s the next poll can reach an unprovable index operation (%s): %s" % (kind, key.split("|")[-2] if "|" in key else key, s.failed[0][0])
+        inst = "after %s (%s)" % (kind, label)
+        if bad:
+            ctx.violation(rule, "%s|absorb|%s" % (rule, inst), "terminal state is not absorbing: " + bad, where=_last_where(o))
+        else:
+            ctx.ok(rule, "absorbing: %s" % inst)
+    ctx.floor(rule + ".terminal", nt, 2, what="terminal rows (error and end)")
+
+
+def _last_where(o):
+    for e in reversed(o.events):
+        if "span" in e:
+            return F.loc(e["span"])
+    return None
+
+
 def stream_accounting(ctx, rule):
-    pass
+    """C01.R5: every emitted piece is subtracted from the owed-bytes field exactly once"""
+    adt, roles, pn = find_stream(ctx)
+    nok = 0
+    for label, p, cs in stream_cases():
+        outs = run_case(ctx, adt, roles, pn, p, cs)
+        for o in outs:
+            if o.kind != "return" or not cons_zone(o).feasible():
+                continue
+            kind, payload = poll_shape(o.value)
+            rem2 = final_read(ctx, o, SELF, (("f", roles["remaining"]),))
+            inst = "%s -> %s" % (label, kind)
+            if kind == "Ok":
+                nok += 1
+                ln = piece_len(o, payload)
+                if ln is None:
+                    ctx.violation(rule, "%s|%s|len" % (rule, inst), "a piece is emitted whose length is never measured: %s" % short(payload, 80), where=_last_where(o))
+                    continue
+                want = mk_binop("Sub", REM, ln)
+                if rem2 != want:
+                    ctx.violation(rule, "%s|%s" % (rule, inst), "owed bytes after emitting a piece are %s, expected remaining - len(piece) = %s" % (short(rem2, 80), short(want, 80)),
+                                  where=_last_where(o))
+                else:
+                    ctx.ok(rule, "%s: remaining' = remaining - len(piece)" % inst)
+            elif kind in ("Pending", "None"):
+                if rem2 != REM:
+                    ctx.violation(rule, "%s|%s" % (rule, inst), "owed bytes change on a %s return" % kind, where=_last_where(o))
+            elif kind == "Err":
+                if rem2 not in (REM, const(0)):
+                    ctx.violation(rule, "%s|%s" % (rule, inst), "owed bytes after an error are %s (expected unchanged or 0)" % short(rem2, 60), where=_last_where(o))
+    ctx.floor(rule, nok, 3, what="data-emitting rows (part header, part body chunk, trailer)")
+
+
+def piece_len(o, payload):
+    """the length term the code subtracted for this piece"""
+    # chunk from the current part: Buf::remaining(&d)
+    for e in o.events:
+        if e["k"] == "call" and e["callee"].get("path") == "bytes::Buf::remaining":
+            a = e["snap"][0] if e["args"][0][0] == "ref" else e["args"][0]
+            if a == payload:
+                TY.setdefault(e["result"], (64, False))
+                return e["result"]
+    # D::from(x) / x.into(): length of x
+    if isinstance(payload, tuple) and payload[0] == "call" and (payload[1].endswith("::into") or payload[1].endswith("::from")):
+        x = payload[2][0]
+        if isinstance(x, tuple) and x[0] == "&":
+            x = x[1]
+        return len_term(x)
+    return None
+
+
 def correspondence(ctx, rule):
-    pass
+    """C01.R6: the pieces emitted are the summands of the pre-computed length"""
+    adt, roles, pn = find_stream(ctx)
+    R = prepare_rows(ctx)
+    seen = set()
+    for label, p, cs in stream_cases():
+        outs = run_case(ctx, adt, roles, pn, p, cs)
+        for o in outs:
+            if not cons_zone(o).feasible():
+                continue
+            # installing a part stream
+            cur2 = final_read(ctx, o, SELF, (("f", roles["cur"]),))
+            if is_agg(cur2) and cur2[3] == "Some" and isinstance(agg_get(cur2, "0"), tuple) and agg_get(cur2, "0")[0] == "call" \
+                    and "::new" in agg_get(cur2, "0")[1]:
+                els = agg_get(cur2, "0")
+                stt = final_read(ctx, o, SELF, (("f", roles["state"]),))
+                hcur = stt[1] if isinstance(stt, tuple) and stt[0] == "pack" else None
+                ok = False
+                if isinstance(els, tuple) and els[0] == "call" and "::new" in els[1]:
+                    budget, stream = els[2][0], els[2][1]
+                    if isinstance(stream, tuple) and stream[0] == "call" and stream[1] == "Entity::get_range":
+                        rng = stream[2][1]
+                        src = owner_elem(rng)
+                        if src is not None and src[1] == RG and src[2] == hcur and budget == mk_binop("Sub", ("field", rng, "end"), ("field", rng, "start")):
+                            ok = True
+                seen.add("part-body")
+                if ok:
+                    ctx.ok(rule, "part body = length-checked get_range(ranges[h]) with budget end-start")
+                else:
+                    ctx.violation(rule, rule + "|part-body", "the part body installed is %s; expected the length-checked stream over get_range(ranges[h]) with budget end-start" % short(els, 160),
+                                  where=_last_where(o))
+            if o.kind != "return":
+                continue
+            kind, payload = poll_shape(o.value)
+            if kind != "Ok":
+                continue
+            src = fmt_term(payload)
+            if isinstance(payload, tuple) and payload[0] == "call" and (payload[1].endswith("::into") or payload[1].endswith("::from")):
+                x = payload[2][0]
+                if isinstance(x, tuple) and x[0] == "&":
+                    x = x[1]
+                if x[0] == "bytes":
+                    seen.add("trailer")
+                    m = re.fullmatch(r"\r\n--([^\r\n]+)--\r\n", x[1])
+                    if not m:
+                        ctx.violation(rule, rule + "|trailer-shape", "the closing delimiter %r is not CRLF--<boundary>--CRLF" % x[1])
+                    else:
+                        ctx.ok(rule, "trailer literal %r" % x[1], detail={"boundary": m.group(1)})
+                        ctx.__dict__.setdefault("_boundaries", set()).add(m.group(1))
+                        ctx.__dict__["_trailer_len"] = len(x[1])
+                elif x[0] == "deref" and isinstance(x[1], tuple) and x[1][0] == "elem" and x[1][1] == PH and \
+                        x[1][2] == _post_h(ctx, o, roles):
+                    seen.add("part-header")
+                    # taken: the slot is left empty so it cannot be emitted twice
+                    took = any(e["k"] == "write" and e.get("via") == "mem::take" for e in o.events)
+                    if took:
+                        ctx.ok(rule, "part header h is taken out of the list (emitted once)")
+                    else:
+                        ctx.violation(rule, rule + "|part-header-copy", "the part header is emitted without being taken out of the list")
+                else:
+                    ctx.violation(rule, rule + "|unknown-piece", "a piece that is not a summand of the pre-computed length is emitted: %s" % short(x, 100), where=_last_where(o))
+    for need in ("part-header", "part-body", "trailer"):
+        if need not in seen:
+            ctx.violation(rule, rule + "|missing|" + need, "the multipart stream never emits the %s" % need)
+    ctx.floor(rule, len(seen), 3, what="kinds of pieces emitted")
+
+
+def _post_h(ctx, o, roles):
+    stt = final_read(ctx, o, SELF, (("f", roles["state"]),))
+    return stt[1] if isinstance(stt, tuple) and stt[0] == "pack" else None
+
+
+def owner_elem(rng):
+    """ranges[h] element: ("deref", ("elem", seq, idx))"""
+    if isinstance(rng, tuple) and rng[0] == "deref" and isinstance(rng[1], tuple) and rng[1][0] == "elem":
+        return rng[1]
+    return None
+
+
+def constructor_inv(ctx, rule):
+    """the only construction site of the stream establishes Inv: position 0, no current part"""
+    adt, roles, pn = find_stream(ctx)
+    from .common import aggregates
+    sites = aggregates(ctx.facts, adt)
+    n = 0
+    for b, i, st in sites:
+        n += 1
+        ops = dict(zip(st["rv"].get("fields", []), st["rv"]["ops"]))
+        s = ops.get(roles["state"])
+        c = ops.get(roles["cur"])
+        ok = s is not None and s.get("int") == 0
+        outs = ctx.px(b["name"])
+        curv = None
+        for o in outs:
+            if o.kind == "return" and is_agg(o.value):
+                curv = agg_get(o.value, roles["cur"])
+        ok = ok and is_agg(curv) and curv[3] == "None"
+        if ok:
+            ctx.ok(rule, "constructor %s: position 0, no current part" % b["name"])
+        else:
+            ctx.violation(rule, rule + "|ctor", "the stream constructor %s does not start at position 0 with no current part" % b["name"], where=F.loc(st["span"]))
+    ctx.floor(rule + ".ctor", n, 1, what="construction sites of the multipart stream")
+    if n > 1:
+        ctx.violation(rule, rule + "|ctor-count", "the multipart stream is constructed at %d sites; Inv was established for one constructor only" % n)
